@@ -10,7 +10,9 @@ VARIANTS = {0: "given order, main read and evaluated", 1: "definitions in revers
             3: "one text, Code.Compile, then evaluated", 4: "every form through (eval (quote form))", 5: "(load file), callers first",
             6: "same code object, 2nd evaluation", 7: "same code object, 3rd evaluation", 8: "same code object, 4th evaluation",
             9: "every definition evaluated twice", 10: "a function redefined to something else and back",
-            11: "every function first a stub, main evaluated once against the stubs, then the real definitions callers first, same code object of main"}
+            11: "every function first a stub, main evaluated once against the stubs, then the real definitions callers first, same code object of main",
+            12: "every function defined three times: two stubs, then the real definition inside a let, callers first",
+            13: "the real definitions, every function redefined as a stub, the real definitions again"}
 
 
 def run(tier, seed):
